@@ -120,8 +120,8 @@ def run(ctx):
     # small logger caches: the log outgrows its cache repeatedly while the GP keeps selecting from it
     base += [job(D, "lin", m, "sphere_in", seeds[0], 90, opts={"cache_size": cs}) for D in (1, 2) for m in ("det", "spec") for cs in (8, 30)]
     st = explore(base, ["ans", "noise"], 0, sink, name="runs/b0")
-    nz = [job(D, "lin", "spec", "sphere_corner", seeds[0], 62) for D in (1, 2)]
-    st = explore(nz, ["noise"], 1, sink, stats=st, name="spec-corner/noise-b1", pos_ok=lambda k, p, r: p % (6 if q else 2) == 0)
+    nz = [job(D, "lin", m, t, seeds[0], 62) for D in (1, 2) for m, t in (("spec", "sphere_corner"), ("decl", "sphere_in"))]
+    st = explore(nz, ["noise"], 1, sink, stats=st, name="spec-corner/noise-b1", pos_ok=lambda k, p, r: p >= 30 and p % (3 if q else 1) == 0)
     sink.finish_cov(st)
     tot = sink.stat_tot
     rep.set("gp_local_fits_checked", tot.get("gp_local", 0))
